@@ -2874,3 +2874,68 @@ M("legacyfix-low-64-bits", "C17", "C17.ledger",
   ("data/balance/keeper.go", "	if len(ea.Balance().Bits()) != 0 {", "	if ea.Balance().Uint64() != 0 {"))
 R("legacyfix-sign-test", ["C17"],
   ("data/balance/keeper.go", "	if len(ea.Balance().Bits()) != 0 {", "	if ea.Balance().Sign() != 0 {"))
+
+# ------------------------------------------------------------------ C18.rangepair / C18.slice
+M("perblockfee-min-from-other-option", "C18", "C18.rangepair",
+  ("data/governance/validations.go", "opt.PerBlockFees.CheckInRange(*minPerBlockFee, *maxPerBlockFee)", "opt.PerBlockFees.CheckInRange(*minBaseDomainPrice, *maxPerBlockFee)"))
+M("maturity-bounds-swapped", "C18", "C18.rangepair",
+  ("data/governance/validations.go", "verifyRangeInt64(opt.MaturityTime, minMaturityTime, maxMaturityTime)", "verifyRangeInt64(opt.MaturityTime, maxMaturityTime, minMaturityTime)"))
+HLP = "chains/ethereum/helpers.go"
+M("erc20lock-index-parser-lenient", "C18", "C18.slice",
+  (HLP, """	ss := strings.Split(hex.EncodeToString(data), functionSig)
+	if len(ss) < 2 || len(ss[1]) < 128 {
+		return nil, errors.New("Transaction data is invalid")
+	}
+
+	tokenAmount, err := hex.DecodeString(ss[1][64:128])
+	if err != nil {
+		return nil, err
+	}
+	receiver := ss[1][24:64]""", """	txHex := hex.EncodeToString(data)
+	idx := strings.Index(txHex, functionSig)
+	if idx < 0 || len(txHex)-idx < 128 {
+		return nil, errors.New("Transaction data is invalid")
+	}
+	args := txHex[idx+len(functionSig):]
+
+	tokenAmount, err := hex.DecodeString(args[64:128])
+	if err != nil {
+		return nil, err
+	}
+	receiver := args[24:64]"""))
+R("erc20lock-index-parser-exact", ["C18"],
+  (HLP, """	ss := strings.Split(hex.EncodeToString(data), functionSig)
+	if len(ss) < 2 || len(ss[1]) < 128 {
+		return nil, errors.New("Transaction data is invalid")
+	}
+
+	tokenAmount, err := hex.DecodeString(ss[1][64:128])
+	if err != nil {
+		return nil, err
+	}
+	receiver := ss[1][24:64]""", """	txHex := hex.EncodeToString(data)
+	idx := strings.Index(txHex, functionSig)
+	if idx < 0 || len(txHex)-idx-len(functionSig) < 128 {
+		return nil, errors.New("Transaction data is invalid")
+	}
+	args := txHex[idx+len(functionSig):]
+
+	tokenAmount, err := hex.DecodeString(args[64:128])
+	if err != nil {
+		return nil, err
+	}
+	receiver := args[24:64]"""))
+R("erc20lock-args-local-with-own-test", ["C18"],
+  (HLP, """	tokenAmount, err := hex.DecodeString(ss[1][64:128])
+	if err != nil {
+		return nil, err
+	}
+	receiver := ss[1][24:64]""", """	args := ss[1]
+	if len(args) <= 127 {
+		return nil, errors.New("Transaction data is invalid")
+	}
+	tokenAmount, err := hex.DecodeString(args[64:128])
+	if err != nil {
+		return nil, err
+	}
+	receiver := args[24:64]"""))
